@@ -84,10 +84,34 @@ pub const E0: OrderEntry = OrderEntry {
     key: (Side::Ask, 0, 0),
 };
 
+// (the generic parameter is named as in the crate: Kani compares stub signatures nominally)
+impl<const LEVELS: usize> OrderBook<LEVELS> {
+    /// Stand-in for `process_event` in step-LOOP harnesses (C08/C15, `#[kani::stub]`): appends one
+    /// record (book time at the call, instruction kind / id / arguments) to the trade log and adds 1
+    /// to the traded-volume counter; touches nothing else.  What `process_event` itself does is
+    /// decided by the book-step harnesses (C01, C06, C13).
+    pub fn verif_log_event(&mut self, event: Event<OrderId>) {
+        let (kind, id, np, nv) = match event {
+            Event::New { order_id } => (0usize, order_id, None, None),
+            Event::Cancellation { order_id } => (1usize, order_id, None, None),
+            Event::Modify { order_id, new_price, new_vol } => (2usize, order_id, new_price, new_vol),
+        };
+        let code = kind + if np.is_some() { 4 } else { 0 } + if nv.is_some() { 8 } else { 0 };
+        self.trades.push(Trade { t: self.t, side: Side::Bid, price: np.unwrap_or(0), vol: nv.unwrap_or(0), active_order_id: id, passive_order_id: code });
+        self.trade_vol = self.trade_vol.wrapping_add(1);
+    }
+}
+
 impl<const L: usize> OrderBook<L> {
     /// number of orders ever created (harness observation for dependent crates)
     pub fn verif_n_orders(&self) -> usize {
         self.orders.len()
+    }
+    pub fn verif_tick(&self) -> Price {
+        self.tick_size
+    }
+    pub fn verif_trading(&self) -> bool {
+        self.trading
     }
 }
 
@@ -132,9 +156,17 @@ pub struct GenCfg {
     pub ntrades: usize,
     /// full-width values (u32 prices/volumes/traders, u64 times); false = 8-bit domains widened
     pub wide: bool,
+    /// per-entry shape: 0 arbitrary | 1 New | 2 Active | 10/11 New bid/ask limit | 12/13 New
+    /// bid/ask market | 20/21 Active bid/ask limit.  A concrete shape keeps side / kind / status
+    /// constants, so that the symbolic executor follows one dispatch path instead of all of them.
+    pub shape: [u8; 4],
+    /// tick size when it is not symbolic.  A remainder by a SYMBOLIC divisor (`price % tick` in
+    /// `create_order`) makes CBMC's post-processing explode (tens of GB), so harnesses that reach
+    /// `create_order` enumerate concrete ticks instead.
+    pub tick: Price,
 }
-pub const CFG: GenCfg = GenCfg { sym_tick: false, discipline: true, trading: None, uncrossed: false, ntrades: 0, wide: true };
-pub const CFG_NARROW: GenCfg = GenCfg { sym_tick: false, discipline: true, trading: None, uncrossed: false, ntrades: 0, wide: false };
+pub const CFG: GenCfg = GenCfg { sym_tick: false, discipline: true, trading: None, uncrossed: false, ntrades: 0, wide: true, shape: [0; 4], tick: 1 };
+pub const CFG_NARROW: GenCfg = GenCfg { sym_tick: false, discipline: true, trading: None, uncrossed: false, ntrades: 0, wide: false, shape: [0; 4], tick: 1 };
 
 pub fn g_u32(wide: bool) -> u32 {
     if wide { any_u32() } else { any_u8() as u32 }
@@ -168,18 +200,32 @@ pub struct Plain<const N: usize> {
     pub ntr: usize,
 }
 
-pub fn gen_entry(i: usize, t: Nanos, tick: Price, wide: bool) -> OrderEntry {
-    let bid = any_bool();
-    let st = any_u8();
-    assume(st < 5);
-    let status = match st {
-        0 => Status::New,
-        1 => Status::Active,
-        2 => Status::Filled,
-        3 => Status::Cancelled,
-        _ => Status::Rejected,
+pub fn gen_entry(i: usize, t: Nanos, tick: Price, wide: bool, shape: u8) -> OrderEntry {
+    let bid = match shape {
+        10 | 12 | 20 => true,
+        11 | 13 | 21 => false,
+        _ => any_bool(),
     };
-    let market = any_bool();
+    let status = match shape {
+        0 => {
+            let st = any_u8();
+            assume(st < 5);
+            match st {
+                0 => Status::New,
+                1 => Status::Active,
+                2 => Status::Filled,
+                3 => Status::Cancelled,
+                _ => Status::Rejected,
+            }
+        }
+        2 | 20 | 21 => Status::Active,
+        _ => Status::New,
+    };
+    let market = match shape {
+        2 | 10 | 11 | 20 | 21 => false,
+        12 | 13 => true,
+        _ => any_bool(),
+    };
     let price = if market {
         if bid { Price::MAX } else { 0 }
     } else {
@@ -237,7 +283,7 @@ pub fn gen_plain<const N: usize>(m: usize, cfg: GenCfg) -> Plain<N> {
         assume(k >= 1 && k <= 10);
         k
     } else {
-        1
+        cfg.tick
     };
     let trading = match cfg.trading {
         Some(b) => b,
@@ -247,7 +293,7 @@ pub fn gen_plain<const N: usize>(m: usize, cfg: GenCfg) -> Plain<N> {
     let mut e = [E0; N];
     let mut i = 0;
     while i < m {
-        e[i] = gen_entry(i, t, tick, cfg.wide);
+        e[i] = gen_entry(i, t, tick, cfg.wide, if i < 4 { cfg.shape[i] } else { 0 });
         i += 1;
     }
     // creation order: a New entry still carries its creation time, later ids were created later
@@ -701,6 +747,11 @@ pub fn index_equals_reload<const N: usize, const L: usize>(b: &OrderBook<L>) -> 
     ok
 }
 
+/// both side indexes of `a` hold exactly the entries of `b`'s
+pub fn sides_same<const L: usize>(a: &OrderBook<L>, b: &OrderBook<L>) -> bool {
+    a.bid_side.verif_inner().verif_same(b.bid_side.verif_inner()) && a.ask_side.verif_inner().verif_same(b.ask_side.verif_inner())
+}
+
 /// every market-data getter == recomputation from the book's own order list (C02, first sentence)
 pub fn c02_views_ok<const N: usize, const L: usize>(b: &OrderBook<L>) -> bool {
     let post: Plain<N> = observe::<N, L>(b);
@@ -941,6 +992,23 @@ pub fn snapshot_equal<const N: usize, const L: usize>(b: &OrderBook<L>, pre: &Pl
         k += 1;
     }
     ok &= (ignore_time || b.t == pre.t) && b.trading == pre.trading && b.tick_size == pre.tick && b.trade_vol == pre.trade_vol;
+    let v: Views<L> = views::<N, L>(pre);
+    ok &= views_match(b, &v);
+    ok
+}
+
+/// `snapshot_equal` on the first `pre.n` entries only (a new order may have been appended)
+pub fn snapshot_equal_prefix<const N: usize, const L: usize>(b: &OrderBook<L>, pre: &Plain<N>, ntr0: usize, old: &[TradeRec; 2]) -> bool {
+    let mut ok = b.orders.len() >= pre.n && b.trades.len() == ntr0;
+    let mut i = 0;
+    while i < N {
+        if i < pre.n && i < b.orders.len() {
+            ok &= order_eq(&b.orders[i].order, &pre.e[i].order) && key_eq(&b.orders[i].key, &pre.e[i].key);
+        }
+        i += 1;
+    }
+    ok &= old_trades_unchanged(b, ntr0, old);
+    ok &= b.t == pre.t && b.trading == pre.trading && b.tick_size == pre.tick && b.trade_vol == pre.trade_vol;
     let v: Views<L> = views::<N, L>(pre);
     ok &= views_match(b, &v);
     ok
